@@ -674,6 +674,15 @@ func (env *CEnv) evalCall(x *ast.CallExpr) (Value, types.Type) {
 			}
 			env.s.assume(forall(inner.qvars, "(! "+eq(sel(arr, qn), body)+" :pattern ((select "+arr+" "+qn+")))"))
 			return IntV{ite(nilGuard, "0", app("msum", arr, setTerm))}, tInt
+		case "nvisited":
+			// nvisited(): number of iterations begun by the map-range loop whose clause is being evaluated; nvisited(N): of loop N
+			ord := c.curLoop
+			if len(x.Args) == 1 {
+				if lit, ok := x.Args[0].(*ast.BasicLit); ok {
+					ord, _ = strconv.Atoi(lit.Value)
+				}
+			}
+			return IntV{c.heapGet(env.s, fmt.Sprintf("L.count%d", ord), sInt)}, types.Typ[types.Int]
 		case "visited":
 			// visited(k): key k has been visited by the map-range loop whose clause is being evaluated
 			kv, _ := env.eval(x.Args[0])
